@@ -108,4 +108,7 @@ func c10Extra(r *core.Run) {
 		}
 		o.Site(n, pkg)
 	})
+
+	// detection round 8: the runner the drain handler uses gives its slot back also when the drain function panics
+	c10Round8(r)
 }
